@@ -272,6 +272,18 @@ def build_props_cone(pid):
     return pb
 
 
+def run_coqchk(pid, timeout=3000):
+    """independent re-check of the compiled closure of Props/<pid>.vo; returns (ok, summary)"""
+    rc, out = sh(["coqchk", "-silent", "-o", "-Q", ".", "DNS", "DNS.Props." + pid], cwd=COQ, timeout=timeout)
+    summary = {}
+    for key in ("Axioms", "Constants/Inductives relying on type-in-type",
+                "Constants/Inductives relying on unsafe (co)fixpoints", "Inductives whose positivity is assumed"):
+        m = re.search(r"\* " + re.escape(key) + r":\s*(.*?)(?=\n\s*\n|\n\*|\Z)", out, re.S)
+        summary[key] = m.group(1).strip() if m else "?"
+    ok = rc == 0 and all(v == "<none>" for v in summary.values())
+    return ok, summary
+
+
 def build_driver():
     """extraction + ocamlfind ocamlopt; only when model.ml changed"""
     if not os.path.exists(os.path.join(COQ, "model.ml")):
